@@ -4,7 +4,7 @@ CXX = clang++
 CXXFLAGS = -std=c++17 -O2 -g1 -gdwarf-4 -Wall -Wextra -Wno-unused-parameter -Wno-missing-field-initializers -fno-omit-frame-pointer
 LDFLAGS = -rdynamic -ldl -lpthread
 SRC = $(wildcard sim/*.cpp)
-HDR = $(wildcard sim/*.hpp) adapter/jv_abi.h
+HDR = $(wildcard sim/*.hpp) $(wildcard sim/*.inc) adapter/jv_abi.h
 OBJ_PLAIN = $(patsubst sim/%.cpp,build/obj/plain/%.o,$(SRC))
 OBJ_SAN = $(patsubst sim/%.cpp,build/obj/san/%.o,$(SRC))
 SAN = -fsanitize=address,undefined -fno-sanitize-recover=undefined -DJV_SAN
